@@ -507,7 +507,8 @@ fn check_wit_case(ctx: &mut Ctx, case: u64, rng: &mut Rng) {
 pub fn run(ctx: &mut Ctx) {
     let wit_total = ctx.n(2_000, 600_000);
     for case in ctx.cases(wit_total) {
-        if ctx.out_of_budget() {
+        // leave at least half of the time budget to the shaped workload below
+        if ctx.out_of_budget_frac(0.5) {
             break;
         }
         let c = crate::witness::WITNESS_BASE / 2 + case;
